@@ -5,7 +5,7 @@ for p in "$@"; do
   git -C /repo worktree remove --force $wt >/dev/null 2>&1
   git -C /repo worktree add -q --detach $wt HEAD || continue
   cp -a /repo/target $wt/target
-  python3 /verif/tools/mut_prompt.py $p > $wt/INSTRUCTIONS.md
+  python3 /verif/tools/mut_prompt.py $p $MUT_VARIANT > $wt/INSTRUCTIONS.md
   echo "The machine is shared and busy: pass \`-j 6\` to every cargo build/test command." >> $wt/INSTRUCTIONS.md
   echo prepared $wt
 done
